@@ -12,6 +12,7 @@ use flussab_aiger::aig::{
     Aig, AigStructureError, AndGate, Latch, OrderedAig, Renumber, RenumberConfig,
 };
 use std::collections::{HashMap, HashSet};
+use std::sync::atomic::{AtomicUsize, Ordering};
 
 type Cfg = (bool, bool, bool); // trim, structural_hash, const_fold
 
@@ -694,18 +695,52 @@ pub fn run_case(line: &str) -> (String, Vec<String>) {
     if let Some(shape) = f.opt("deep") {
         return run_deep(shape, f.num("n"));
     }
+    if f.opt("gs").is_some() {
+        // scale case: the circuit is described by a generator spec (see `expand_spec`)
+        let (net, cfg) = expand_spec(&f);
+        let big = f.opt("big") == Some("1");
+        return run_net(line, &net, cfg, if big { Obs::Brief } else { Obs::Digest });
+    }
     let cfg = parse_cfg(f.get("cfg"));
     let net = Net::parse(&f);
+    run_net(line, &net, cfg, Obs::Full)
+}
+
+/// How the successful result is rendered: in full, as `#len:fnv64` of the full text (scale cases
+/// that run through the model), or not at all (`big=1`, the observation is replaced by `BIG`).
+#[derive(Clone, Copy, PartialEq)]
+enum Obs {
+    Full,
+    Digest,
+    Brief,
+}
+
+fn run_net(line: &str, net: &Net, cfg: Cfg, mode: Obs) -> (String, Vec<String>) {
     let aig = net.to_aig();
     let res = match catch(|| Renumber::renumber_aig(config(cfg), &aig)) {
         Some(r) => r,
         None => return ("panic".into(), vec!["C12: renumber_aig panicked".into()]),
     };
+    drop(aig);
     let mut entries = vec![];
     let obs = match &res {
         Ok((ord, ren)) => {
-            entries = map_entries(&net, ren);
-            format!("ok {} map={}", show_ordered(ord), show_map(&entries))
+            entries = map_entries(net, ren);
+            match mode {
+                Obs::Full => format!("ok {} map={}", show_ordered(ord), show_map(&entries)),
+                Obs::Digest => {
+                    let full = format!("ok {} map={}", show_ordered(ord), show_map(&entries));
+                    format!(
+                        "ok M={} I={} G={} #{}:{:016x}",
+                        ord.max_var_index,
+                        ord.input_count,
+                        ord.and_gates.len(),
+                        full.len(),
+                        fnv(&full)
+                    )
+                }
+                Obs::Brief => format!("ok M={} I={} G={}", ord.max_var_index, ord.input_count, ord.and_gates.len()),
+            }
         }
         Err(e) => {
             let (k, l) = err_kind(e);
@@ -714,7 +749,7 @@ pub fn run_case(line: &str) -> (String, Vec<String>) {
     };
 
     let mut fails = Fails(vec![]);
-    let (defs, dups) = definitions(&net);
+    let (defs, dups) = definitions(net);
     let class: String;
     if !dups.is_empty() {
         class = "dup".into();
@@ -727,7 +762,7 @@ pub fn run_case(line: &str) -> (String, Vec<String>) {
             _ => fails.push(format!("C12: doubly defined literal not reported (got {})", short(&obs))),
         }
     } else {
-        let an = analyse(&net, &defs, &net.roots(cfg.0));
+        let an = analyse(net, &defs, &net.roots(cfg.0));
         if an.undefined || an.cycle {
             class = match (an.undefined, an.cycle) {
                 (true, true) => "undef+cycle",
@@ -748,7 +783,7 @@ pub fn run_case(line: &str) -> (String, Vec<String>) {
                 Err(AigStructureError::FoundCycle { lit }) => {
                     if !an.cycle {
                         fails.push(format!("C12: wrong error kind {} ({})", obs, what));
-                    } else if !an.reach.contains(&(lit / 2)) || !on_cycle(&net, &defs, lit / 2) {
+                    } else if !an.reach.contains(&(lit / 2)) || !on_cycle(net, &defs, lit / 2) {
                         fails.push(format!("C12: error literal: {} is not on a reachable cycle", lit));
                     }
                 }
@@ -759,7 +794,7 @@ pub fn run_case(line: &str) -> (String, Vec<String>) {
             class = format!("wf {}", if n <= 6 { "exhaustive" } else { "random" });
             match &res {
                 Err(_) => fails.push(format!("C12: well-formed graph rejected: {}", obs)),
-                Ok((ord, ren)) => check_ok(line, &net, cfg, &defs, &an, ord, ren, &entries, &mut fails),
+                Ok((ord, ren)) => check_ok(line, net, cfg, &defs, &an, ord, ren, &entries, &mut fails),
             }
         }
     }
@@ -847,6 +882,9 @@ fn run_deep(shape: &str, n: usize) -> (String, Vec<String>) {
 }
 
 pub fn deep_cases(thorough: bool) -> Vec<String> {
+    if opt_is_scale() {
+        return vec![]; // `main.rs` prepends the deep cases to every renumber run; the scale family has its own
+    }
     let n = if thorough { 1_000_000 } else { 100_000 };
     vec![format!("renumber deep=chain n={}", n), format!("renumber deep=cycle n={}", n)]
 }
@@ -1118,9 +1156,829 @@ fn gen_net(rng: &mut Rng, thorough: bool) -> (Net, Cfg, &'static str) {
 }
 
 pub fn gen_case(rng: &mut Rng, thorough: bool) -> String {
+    if opt_is_scale() {
+        return gen_scale_case(rng, thorough);
+    }
     if rng.chance(1, 500) {
         return deep_cases(false)[rng.below(2) as usize].clone();
     }
     let (net, cfg, _mutation) = gen_net(rng, thorough);
     net.line(cfg)
+}
+
+// ------------------------------------------------------------------------------------ scale cases
+//
+// A scale case describes its circuit by a generator spec which the Lean driver
+// (`Driver/EngRenumber.lean`, `expandSpec`) expands in exactly the same way:
+//
+//   renumber cfg=<thf> ni=<N> nl=<N> ord=<f|r|s<seed>> num=<i|r|h|b> pol=<p> gs=<gate segments>
+//            ln=<lits> outputs=<lits> bad=<lits> constraints=<lits> fairness=<lits>
+//            justice=<lits;lits|-> [shape=<name>] [big=1]
+//
+// Canonical numbering: variable 0 is the constant, 1..ni the inputs, ni+1..ni+nl the latches,
+// ni+nl+1+k the k-th allocating gate (T = ni+nl+#allocating gates variables); a canonical code is
+// 2*var + negation.  All codes in the spec are canonical; `num`/`pol` map them to the literals of
+// the `Aig` (`canon_to_orig`), `ord` permutes the gate list.
+//
+// Gate segments (`+`-joined, `-` = none); `cur` = number of allocating gates so far:
+//   x<a>.<b>                         one gate, inputs a and b
+//   c<count>.<a0>.<da>.<b0>.<db>     gate i has inputs a0+i*da, b0+i*db (steps may be negative)
+//   p<lo1>.<n1>.<lo2>.<n2>           all n1*n2 gates (lo1+i, lo2+j), i outer
+//   g<count>.<seed>.<win>            random gates over the `win` most recent signals (0 = all)
+//   o<out>.<a>.<b>                   non-allocating gate with explicit output code (redefinitions)
+//   k<pairs>.<seed>                  2*pairs gates: pairs of gates over the signals defined so far
+//                                    whose input pairs collide under some combined-key function
+//                                    (`collision_pairs`); implementation side only (`big=1`)
+// Literal lists (`+`-joined, `-` = empty): <lit> | c<count>.<start>.<step> | g<count>.<seed>
+// (random codes below 2T+2).  `ln` = next-state literals of the latches (padded with 0); latch j
+// has initialization x,0,1 for j%3 = 0,1,2.
+
+fn parse_i64(s: &str) -> i64 {
+    s.parse().unwrap_or_else(|_| panic!("bad number {}", s))
+}
+
+fn seg_parts(s: &str) -> (u8, Vec<&str>) {
+    (s.as_bytes()[0], s[1..].split('.').collect())
+}
+
+fn seg_list(s: &str) -> Vec<&str> {
+    if s == "-" || s.is_empty() {
+        vec![]
+    } else {
+        s.split('+').collect()
+    }
+}
+
+/// Number of variable-allocating gates of a gate spec.
+fn spec_gate_count(gs: &str) -> usize {
+    let mut n = 0usize;
+    for seg in seg_list(gs) {
+        let (kind, p) = seg_parts(seg);
+        n += match kind {
+            b'x' => 1,
+            b'c' | b'g' => p[0].parse::<usize>().unwrap(),
+            b'p' => p[1].parse::<usize>().unwrap() * p[3].parse::<usize>().unwrap(),
+            b'k' => 2 * p[0].parse::<usize>().unwrap(),
+            b'o' => 0,
+            _ => panic!("bad gate segment {}", seg),
+        };
+    }
+    n
+}
+
+fn pick_signal(r: u64, s: usize, win: usize) -> usize {
+    if s == 0 || (r >> 60) == 0 {
+        return (r & 1) as usize;
+    }
+    let w = if win == 0 || win > s { s } else { win };
+    let v = s - ((r >> 1) % w as u64) as usize;
+    2 * v + (r & 1) as usize
+}
+
+/// Gates in canonical codes, generation order: (output, input 0, input 1).
+fn expand_gates(gs: &str, base: usize) -> Vec<(usize, usize, usize)> {
+    let mut out: Vec<(usize, usize, usize)> = Vec::with_capacity(spec_gate_count(gs) + 8);
+    let mut cur = 0usize;
+    let mut alloc = |out: &mut Vec<(usize, usize, usize)>, a: usize, b: usize| {
+        out.push((2 * (base + 1 + cur), a, b));
+        cur += 1;
+        cur
+    };
+    let mut cur_now = 0usize;
+    for seg in seg_list(gs) {
+        let (kind, p) = seg_parts(seg);
+        match kind {
+            b'x' => cur_now = alloc(&mut out, p[0].parse().unwrap(), p[1].parse().unwrap()),
+            b'c' => {
+                let (count, a0, da, b0, db) =
+                    (parse_i64(p[0]), parse_i64(p[1]), parse_i64(p[2]), parse_i64(p[3]), parse_i64(p[4]));
+                for i in 0..count {
+                    cur_now = alloc(&mut out, (a0 + i * da).max(0) as usize, (b0 + i * db).max(0) as usize);
+                }
+            }
+            b'p' => {
+                let (lo1, n1, lo2, n2): (usize, usize, usize, usize) =
+                    (p[0].parse().unwrap(), p[1].parse().unwrap(), p[2].parse().unwrap(), p[3].parse().unwrap());
+                for i in 0..n1 {
+                    for j in 0..n2 {
+                        cur_now = alloc(&mut out, lo1 + i, lo2 + j);
+                    }
+                }
+            }
+            b'g' => {
+                let count: usize = p[0].parse().unwrap();
+                let mut rng = Rng::new(p[1].parse().unwrap());
+                let win: usize = p[2].parse().unwrap();
+                for _ in 0..count {
+                    let s = base + cur_now;
+                    let r1 = rng.next();
+                    let r2 = rng.next();
+                    cur_now = alloc(&mut out, pick_signal(r1, s, win), pick_signal(r2, s, win));
+                }
+            }
+            b'o' => out.push((p[0].parse().unwrap(), p[1].parse().unwrap(), p[2].parse().unwrap())),
+            b'k' => {
+                let pairs: usize = p[0].parse().unwrap();
+                let mut rng = Rng::new(p[1].parse().unwrap());
+                let top = 2 * (base + cur_now) + 1;
+                let found = collision_pairs(&mut rng, top as u64, pairs, &key_fns());
+                assert!(found.len() == pairs);
+                for (g1, g2) in found {
+                    alloc(&mut out, g1.0 as usize, g1.1 as usize);
+                    cur_now = alloc(&mut out, g2.0 as usize, g2.1 as usize);
+                }
+            }
+            _ => panic!("bad gate segment {}", seg),
+        }
+    }
+    out
+}
+
+fn expand_lits(s: &str, total: usize) -> Vec<usize> {
+    let mut out = vec![];
+    for seg in seg_list(s) {
+        match seg.as_bytes()[0] {
+            b'c' => {
+                let p: Vec<&str> = seg[1..].split('.').collect();
+                let (count, start, step) = (parse_i64(p[0]), parse_i64(p[1]), parse_i64(p[2]));
+                for i in 0..count {
+                    out.push((start + i * step).max(0) as usize);
+                }
+            }
+            b'g' => {
+                let p: Vec<&str> = seg[1..].split('.').collect();
+                let count: usize = p[0].parse().unwrap();
+                let mut rng = Rng::new(p[1].parse().unwrap());
+                for _ in 0..count {
+                    out.push((rng.next() % (2 * total as u64 + 2)) as usize);
+                }
+            }
+            _ => out.push(seg.parse().unwrap()),
+        }
+    }
+    out
+}
+
+/// Canonical code -> literal of the `Aig`.
+fn canon_to_orig(c: usize, total: usize, num: u8, pol: usize) -> usize {
+    let v = c / 2;
+    if v == 0 {
+        return c;
+    }
+    let m = match num {
+        b'r' if v <= total => total + 1 - v,
+        b'h' => 3 * v + 1,
+        b'b' => (1usize << 31) - total / 2 + v,
+        _ => v,
+    };
+    let odd = (pol > 0 && v % pol == 0) as usize;
+    2 * m + ((c & 1) ^ odd)
+}
+
+fn expand_spec(f: &Fields) -> (Net, Cfg) {
+    let cfg = parse_cfg(f.get("cfg"));
+    let ni = f.num("ni");
+    let nl = f.num("nl");
+    let base = ni + nl;
+    let gs = f.get("gs");
+    let total = base + spec_gate_count(gs);
+    let num = f.get("num").as_bytes()[0];
+    let pol = f.num("pol");
+    let tr = |c: usize| canon_to_orig(c, total, num, pol);
+    let mut gates = expand_gates(gs, base);
+    let ord = f.get("ord");
+    match ord.as_bytes()[0] {
+        b'r' => gates.reverse(),
+        b's' => {
+            let mut rng = Rng::new(ord[1..].parse().unwrap());
+            shuffle(&mut rng, &mut gates);
+        }
+        _ => (),
+    }
+    let lits = |k: &str| -> Vec<usize> { expand_lits(f.get(k), total).into_iter().map(tr).collect() };
+    let next = expand_lits(f.get("ln"), total);
+    let j = f.get("justice");
+    let net = Net {
+        inputs: (0..ni).map(|i| tr(2 * (i + 1))).collect(),
+        latches: (0..nl)
+            .map(|j| {
+                let init = match j % 3 {
+                    0 => None,
+                    1 => Some(false),
+                    _ => Some(true),
+                };
+                (tr(2 * (ni + 1 + j)), tr(next.get(j).copied().unwrap_or(0)), init)
+            })
+            .collect(),
+        gates: gates.into_iter().map(|(o, a, b)| (tr(o), tr(a), tr(b))).collect(),
+        outputs: lits("outputs"),
+        bad: lits("bad"),
+        constraints: lits("constraints"),
+        justice: if j == "-" || j.is_empty() {
+            vec![]
+        } else {
+            j.split(';')
+                .map(|g| if g == "e" { vec![] } else { expand_lits(g, total).into_iter().map(tr).collect() })
+                .collect()
+        },
+        fairness: lits("fairness"),
+    };
+    (net, cfg)
+}
+
+// ---- combined-key functions and colliding gate pairs (generator side only)
+
+/// `key(hi, lo) = (g(x) op y) mod 2^w` with `g(x) = x*k` or `x << k`, `(x, y) = (hi, lo)` or
+/// `(lo, hi)`: the ways of packing the two sorted input codes of a gate into one word.
+#[derive(Clone, Copy, Debug)]
+struct KeyFn {
+    k: u64,
+    shift: bool,
+    w: u32,
+    /// 0 xor, 1 wrapping add, 2 or
+    op: u8,
+    /// false: g applied to the larger code, true: to the smaller
+    on_lo: bool,
+}
+
+impl KeyFn {
+    fn mask(&self) -> u64 {
+        if self.w >= 64 {
+            u64::MAX
+        } else {
+            (1u64 << self.w) - 1
+        }
+    }
+    fn g(&self, x: u64) -> u64 {
+        if self.shift {
+            if self.k >= 64 {
+                0
+            } else {
+                x << self.k
+            }
+        } else {
+            x.wrapping_mul(self.k)
+        }
+    }
+    fn key(&self, hi: u64, lo: u64) -> u64 {
+        let (x, y) = if self.on_lo { (lo, hi) } else { (hi, lo) };
+        let v = match self.op {
+            0 => self.g(x) ^ y,
+            1 => self.g(x).wrapping_add(y),
+            _ => self.g(x) | y,
+        };
+        v & self.mask()
+    }
+    /// `y2` (least residue modulo 2^w) with `key(x, y) == key(x2, y2)`; none for `or`.
+    fn solve(&self, x: u64, y: u64, x2: u64) -> Option<u64> {
+        match self.op {
+            0 => Some((self.g(x) ^ y ^ self.g(x2)) & self.mask()),
+            1 => Some(self.g(x).wrapping_add(y).wrapping_sub(self.g(x2)) & self.mask()),
+            _ => None,
+        }
+    }
+}
+
+/// Multipliers: small numbers, 2^k +- 1, primes next to powers of ten and two, the multipliers of
+/// well-known string / integer / tuple hashes, and every integer constant of the current source.
+fn multipliers() -> Vec<u64> {
+    let mut v: Vec<u64> = vec![
+        0, 1, 2, 3, 5, 6, 7, 9, 10, 11, 13, 19, 29, 31, 33, 37, 41, 53, 61, 101, 131, 137, 251, 257, 263, 509, 521,
+        1009, 1013, 1021, 1031, 4093, 4099, 8191, 10007, 16381, 16411, 32749, 65521, 65599, 69069, 100003, 131071,
+        262139, 524287, 999983, 1000003, 1048573, 1048583, 2097143, 10000019, 16777213, 16777619, 100000007,
+        1000000007, 1000000009, 1103515245, 1664525, 214013, 22695477, 2147483647, 2147483629, 2654435761,
+        2654435769, 0x9E3779B1, 0x85EBCA6B, 0xC2B2AE35, 0xCC9E2D51, 0x1B873593, 0x27D4EB2D, 0x165667B1,
+        4294967291, 4294967311, 0x9E3779B97F4A7C15, 0x100000001B3, 6364136223846793005, 0x517CC1B727220A95,
+        0xFF51AFD7ED558CCD, 0xC4CEB9FE1A85EC53, 0xBF58476D1CE4E5B9, 0x94D049BB133111EB, 0x2545F4914F6CDD1D,
+        0x9FB21C651E98DF25, 11400714819323198485, 14029467366897019727, 1609587929392839161,
+    ];
+    for k in 1..=40 {
+        v.extend([(1u64 << k) - 1, 1u64 << k, (1u64 << k) + 1]);
+    }
+    let mut p = 10u64;
+    for _ in 0..12 {
+        v.extend([p - 1, p, p + 1, p + 3, p + 7, p + 9]);
+        p *= 10;
+    }
+    v.extend(source_consts());
+    v.sort_unstable();
+    v.dedup();
+    v
+}
+
+fn key_fns() -> Vec<KeyFn> {
+    let mut v = vec![];
+    for on_lo in [false, true] {
+        for w in [64u32, 32, 16] {
+            for op in 0..3u8 {
+                for k in multipliers() {
+                    v.push(KeyFn { k, shift: false, w, op, on_lo });
+                }
+                for k in 1..=40u64 {
+                    v.push(KeyFn { k, shift: true, w, op, on_lo });
+                }
+            }
+        }
+    }
+    v
+}
+
+type GatePair = ((u64, u64), (u64, u64));
+
+/// A code in `2..=top`: near the top, near a power of two (or a small multiple), or anywhere.
+fn pick_code(rng: &mut Rng, top: u64) -> u64 {
+    let c = match rng.below(4) {
+        0 => top - rng.below(64.min(top - 1)),
+        1 => {
+            let bits = 64 - top.leading_zeros() as u64;
+            let p = (1u64 << rng.range(2, bits.max(3) - 1)) * rng.range(1, 3);
+            (p + rng.below(17)).saturating_sub(8)
+        }
+        _ => rng.range(2, top),
+    };
+    c.clamp(2, top)
+}
+
+/// One attempt at two different gates (larger input first, no constants, no `x & x`, `x & !x`)
+/// with equal keys and all codes in `2..=top`.
+fn try_pair(rng: &mut Rng, kf: &KeyFn, top: u64) -> Option<GatePair> {
+    if top < 8 {
+        return None;
+    }
+    // (x, y) are the roles of `KeyFn::key`: x goes through g
+    let x = pick_code(rng, top);
+    let x2 = if rng.chance(3, 4) {
+        let dmax = if rng.chance(1, 2) { 1 } else { 8 };
+        let d = rng.range(1, dmax);
+        if rng.chance(1, 2) {
+            x + d
+        } else {
+            x.saturating_sub(d)
+        }
+    } else {
+        pick_code(rng, top)
+    }
+    .clamp(2, top);
+    let (lo_y, hi_y) = if kf.on_lo { (x.max(x2) + 1, top) } else { (2, x.min(x2).saturating_sub(1)) };
+    if lo_y > hi_y {
+        return None;
+    }
+    let y = if rng.chance(1, 3) { pick_code(rng, hi_y).max(lo_y) } else { rng.range(lo_y, hi_y) };
+    let y2 = match kf.solve(x, y, x2) {
+        Some(r) => {
+            // any representative r + j*2^w in range
+            if kf.w < 64 && hi_y > r && (hi_y - r) >> kf.w > 0 {
+                r + (rng.below(((hi_y - r) >> kf.w) + 1) << kf.w)
+            } else {
+                r
+            }
+        }
+        None => {
+            // or: switch on bits of y that g(x2) = g(x) provides anyway
+            if x2 != x {
+                return None;
+            }
+            y | (kf.g(x) & rng.next() & rng.next())
+        }
+    };
+    let pair = if kf.on_lo { ((y, x), (y2, x2)) } else { ((x, y), (x2, y2)) };
+    let ((a, b), (a2, b2)) = pair;
+    let ok = |a: u64, b: u64| a <= top && b >= 2 && a > b && a / 2 != b / 2;
+    if !ok(a, b) || !ok(a2, b2) || (a, b) == (a2, b2) || kf.key(a, b) != kf.key(a2, b2) {
+        return None;
+    }
+    Some(pair)
+}
+
+/// Exactly `count` pairs of gates over the codes `2..=top`: round robin over the key functions
+/// (random starting point), a few attempts each; padded with equal-sum pairs.
+fn collision_pairs(rng: &mut Rng, top: u64, count: usize, fns: &[KeyFn]) -> Vec<GatePair> {
+    let mut out = Vec::with_capacity(count);
+    if top >= 16 && !fns.is_empty() {
+        let start = rng.below(fns.len() as u64) as usize;
+        let mut round = 0;
+        while out.len() < count && round < 6 {
+            for i in 0..fns.len() {
+                if out.len() >= count {
+                    break;
+                }
+                let kf = &fns[(start + i) % fns.len()];
+                let attempts = if kf.w == 32 && top < (1 << 28) { 400 } else { 60 };
+                for _ in 0..attempts {
+                    if let Some(p) = try_pair(rng, kf, top) {
+                        out.push(p);
+                        break;
+                    }
+                }
+            }
+            round += 1;
+        }
+    }
+    while out.len() < count {
+        // (a, b), (a+1, b-1) — or the same gate twice on a tiny circuit
+        let t = top.max(9);
+        let a = rng.range(6, t - 1);
+        let b = rng.range(3, a - 2);
+        out.push(if a / 2 != (b - 1) / 2 && b - 1 >= 2 && a + 1 <= top { ((a, b), (a + 1, b - 1)) } else { ((5, 2), (5, 2)) });
+    }
+    out
+}
+
+// ---- generator of scale cases (`vh gen renumber --opt scale`)
+
+/// `main.rs` does not hand the option string to this engine: read it from the command line.
+fn opt_is_scale() -> bool {
+    let args: Vec<String> = std::env::args().collect();
+    args.iter().position(|a| a == "--opt").and_then(|i| args.get(i + 1)).map(|s| s == "scale").unwrap_or(false)
+}
+
+static SCALE_IDX: AtomicUsize = AtomicUsize::new(0);
+/// Estimated cost of the cases generated so far, in milliseconds (model, implementation).
+static SCALE_MODEL_MS: AtomicUsize = AtomicUsize::new(0);
+static SCALE_IMPL_MS: AtomicUsize = AtomicUsize::new(0);
+
+/// Estimated milliseconds of the Lean model (association lists: quadratic) on a circuit with
+/// `base` inputs + latches, `ng` gates and DFS depth `depth`.
+fn est_model_ms(base: usize, ng: usize, depth: usize) -> usize {
+    let (b, g, d) = (base as f64, ng as f64, depth as f64);
+    (3.0e-6 * b * b + 4.0e-5 * g * g + 2.0e-5 * g * b + 1.0e-4 * d * d) as usize + 1
+}
+
+/// Estimated milliseconds of implementation + oracle in a debug build.
+fn est_impl_ms(total: usize) -> usize {
+    total / 250 + 1
+}
+
+/// Builder of a spec: counts the allocating gates so that later segments can refer to the codes
+/// of earlier gates.
+struct SpecBuilder {
+    ni: usize,
+    nl: usize,
+    cur: usize,
+    segs: Vec<String>,
+    /// longest dependency chain built so far (for the model cost estimate)
+    depth: usize,
+}
+
+impl SpecBuilder {
+    fn new(ni: usize, nl: usize) -> Self {
+        SpecBuilder { ni, nl, cur: 0, segs: vec![], depth: 1 }
+    }
+    fn base(&self) -> usize {
+        self.ni + self.nl
+    }
+    /// number of signals defined so far
+    fn sig(&self) -> usize {
+        self.base() + self.cur
+    }
+    /// largest code defined so far
+    fn top(&self) -> usize {
+        2 * self.sig() + 1
+    }
+    /// code of allocating gate `k`
+    fn gate(&self, k: usize) -> usize {
+        2 * (self.base() + 1 + k)
+    }
+    fn x(&mut self, a: usize, b: usize) {
+        self.segs.push(format!("x{}.{}", a, b));
+        self.cur += 1;
+    }
+    fn c(&mut self, count: usize, a0: usize, da: i64, b0: usize, db: i64) {
+        if count > 0 {
+            self.segs.push(format!("c{}.{}.{}.{}.{}", count, a0, da, b0, db));
+            self.cur += count;
+        }
+    }
+    fn p(&mut self, lo1: usize, n1: usize, lo2: usize, n2: usize) {
+        if n1 * n2 > 0 {
+            self.segs.push(format!("p{}.{}.{}.{}", lo1, n1, lo2, n2));
+            self.cur += n1 * n2;
+        }
+    }
+    fn g(&mut self, count: usize, seed: u64, win: usize) {
+        if count > 0 {
+            self.segs.push(format!("g{}.{}.{}", count, seed, win));
+            self.cur += count;
+        }
+    }
+    fn k(&mut self, pairs: usize, seed: u64) {
+        if pairs > 0 {
+            self.segs.push(format!("k{}.{}", pairs, seed));
+            self.cur += 2 * pairs;
+        }
+    }
+    fn o(&mut self, out: usize, a: usize, b: usize) {
+        self.segs.push(format!("o{}.{}.{}", out, a, b));
+    }
+    fn gs(&self) -> String {
+        if self.segs.is_empty() {
+            "-".into()
+        } else {
+            self.segs.join("+")
+        }
+    }
+}
+
+/// A window start such that `lo .. lo+w` lies within the defined codes.
+fn window_at(rng: &mut Rng, top: usize, w: usize) -> usize {
+    if top < w + 4 {
+        return 2.min(top);
+    }
+    (pick_code(rng, top as u64) as usize).min(top + 1 - w).max(2)
+}
+
+/// Gates probing the structural-hash / constant-fold machinery at the codes defined so far:
+/// all pairs between small windows of codes (top of the range, next to powers of two, anywhere;
+/// a window with itself gives `x&x`, `x&!x`, swapped and duplicate pairs), arithmetic progressions
+/// of pairs (equal sum, equal difference, adjacent) and pairs colliding under combined-key
+/// functions.  `small` = the case also runs through the model.
+fn probe_block(rng: &mut Rng, sb: &mut SpecBuilder, small: bool) {
+    let top = sb.top();
+    if top < 8 {
+        return;
+    }
+    let (nwin, wmax) = if small { (2, 5) } else { (6, 20) };
+    for i in 0..nwin {
+        let w1 = rng.range(2, wmax) as usize;
+        let w2 = rng.range(2, wmax) as usize;
+        let lo1 = if i == 0 { (top + 1).saturating_sub(w1).max(2) } else { window_at(rng, top, w1) };
+        let lo2 = if rng.chance(1, 3) { lo1 } else { window_at(rng, top, w2) };
+        sb.p(lo1, w1.min(top + 1 - lo1), lo2, w2.min(top + 1 - lo2));
+        if rng.chance(1, 3) {
+            // the same pairs again, swapped
+            sb.p(lo2, w2.min(top + 1 - lo2), lo1, w1.min(top + 1 - lo1));
+        }
+    }
+    let n = if small { 6 } else { 48 };
+    if top > 4 * n + 16 {
+        for _ in 0..3 {
+            let a0 = rng.range(2 * n as u64 + 4, (top - 2 * n) as u64) as usize;
+            let b0 = rng.range(n as u64 + 2, a0 as u64 - n as u64) as usize;
+            match rng.below(4) {
+                0 => sb.c(n, a0, 1, b0, -1),  // equal sum
+                1 => sb.c(n, a0, 1, b0, 1),   // equal difference
+                2 => sb.c(n, a0, 2, a0 - 2, 2), // neighbours
+                _ => sb.c(n, a0, -2, b0, 2),
+            }
+        }
+    }
+    if small {
+        let all = key_fns();
+        let sub: Vec<KeyFn> = (0..150).map(|_| *rng.pick(&all)).collect();
+        for ((a, b), (a2, b2)) in collision_pairs(rng, top as u64, 24, &sub) {
+            sb.x(a as usize, b as usize);
+            sb.x(a2 as usize, b2 as usize);
+        }
+    } else {
+        sb.k(key_fns().len(), rng.next() >> 16);
+    }
+}
+
+const DIMS: [&str; 7] = ["inputs", "latches", "gates", "depth", "fanout", "dups", "roots"];
+
+pub fn gen_scale_case(rng: &mut Rng, thorough: bool) -> String {
+    let idx = SCALE_IDX.fetch_add(1, Ordering::Relaxed);
+    let cap = if thorough { 21 } else { 19 };
+    let sizes = scale_sizes(10, cap);
+    let pow2ish = |s: usize| {
+        (10..=cap).any(|k| {
+            let p = 1usize << k;
+            [p - 1, p, p + 1, p + 3, p + 8, p + 9].contains(&s)
+        })
+    };
+    let from_consts: Vec<usize> = sizes.iter().copied().filter(|&s| !pow2ish(s)).collect();
+    let above: Vec<usize> = sizes.iter().copied().filter(|&s| s > 1 << cap).collect();
+    let (model_budget, impl_budget, model_case_ms) = if thorough { (150_000, 400_000, 12_000) } else { (14_000, 15_000, 2_500) };
+
+    // the first cases take every dimension beyond 2^cap, then sizes derived from source constants
+    // and sizes next to powers of two alternate; the dimension rotates
+    let dim = DIMS[idx % DIMS.len()];
+    let mut size = if idx < DIMS.len() {
+        *rng.pick(&above)
+    } else if idx % 2 == 1 && !from_consts.is_empty() {
+        from_consts[(idx / 2) % from_consts.len()]
+    } else {
+        *rng.pick(&sizes)
+    };
+    // stay within the implementation budget: shrink the late big cases
+    let spent = SCALE_IMPL_MS.load(Ordering::Relaxed);
+    while idx >= DIMS.len() && size > 4096 && spent + est_impl_ms(2 * size) > impl_budget {
+        size /= 4;
+    }
+
+    let mut cfg = {
+        let c = rng.below(8);
+        (c & 4 != 0, c & 2 != 0, c & 1 != 0)
+    };
+    if rng.chance(1, 2) {
+        cfg.1 = true; // structural hashing is where the size-dependent machinery is
+    }
+    let num = *rng.pick(&["i", "i", "i", "r", "h", "b"]);
+    let pol = if rng.chance(1, 2) { 0 } else { *rng.pick(&[1usize, 2, 3, 7, 64]) };
+    let mut ord = match rng.below(4) {
+        0 => "r".to_string(),
+        1 => format!("s{}", rng.next() >> 20),
+        _ => "f".to_string(),
+    };
+    let small_n = |rng: &mut Rng| rng.range(1, 12) as usize;
+    let mut outputs = String::from("-");
+    let mut bad = String::from("-");
+    let mut constraints = String::from("-");
+    let mut fairness = String::from("-");
+    let mut justice = String::from("-");
+    let mut ln = String::from("-");
+    let mut shape = dim.to_string();
+    let mut sb;
+    // a first estimate decides whether the model runs; the shapes below keep to it
+    let small = {
+        let (b, g, d) = match dim {
+            "inputs" | "latches" => (size, 600, 1),
+            "fanout" => (size / 2 + 4, size + 600, 1),
+            "depth" => (8, size + 600, size),
+            "roots" => (16, 900, 1),
+            _ => (16, size + 600, 1),
+        };
+        let ms = est_model_ms(b, g, d);
+        ms <= model_case_ms && SCALE_MODEL_MS.load(Ordering::Relaxed) + ms <= model_budget
+    };
+    match dim {
+        "inputs" => {
+            sb = SpecBuilder::new(size, rng.below(3) as usize);
+            ln = format!("g{}.{}", sb.nl, rng.next() >> 20);
+        }
+        "latches" => {
+            sb = SpecBuilder::new(rng.below(5) as usize, size);
+            ln = format!("g{}.{}", size, rng.next() >> 20);
+        }
+        "gates" => {
+            sb = SpecBuilder::new(small_n(rng) * small_n(rng), rng.below(3) as usize);
+            let win = *rng.pick(&[0usize, 0, 3, 8, 64, 1024]);
+            sb.g(size, rng.next() >> 20, win);
+            shape = format!("gates-w{}", win);
+            ln = format!("g{}.{}", sb.nl, rng.next() >> 20);
+        }
+        "depth" => {
+            sb = SpecBuilder::new(1 + small_n(rng), rng.below(2) as usize);
+            let b = sb.base();
+            let cyc = rng.chance(1, 8);
+            if cyc {
+                // the bottom gate hangs on the top gate: a cycle through all `size` gates
+                sb.x(sb.gate(size.max(2) - 1) ^ rng.below(2) as usize, 2);
+                sb.c(size.max(2) - 1, sb.gate(0), 2, 2 + rng.below(2) as usize, 0);
+                shape = "depth-cycle".into();
+            } else if rng.chance(1, 2) || b < 2 {
+                sb.c(size, 2 * b, 2, 2 + rng.below(2) as usize, 0);
+            } else {
+                sb.c(size, 2 * b, 2, 2 * (b - 1) + 1, 2);
+                shape = "depth-fib".into();
+            }
+            sb.depth = size;
+            if rng.chance(2, 3) {
+                ord = if rng.chance(1, 2) { "r".into() } else { format!("s{}", rng.next() >> 20) };
+            }
+            outputs = format!("{}", sb.gate(sb.cur - 1) ^ rng.below(2) as usize);
+        }
+        "fanout" => {
+            sb = SpecBuilder::new(size / 2 + 4, rng.below(2) as usize);
+            sb.x(2, 5);
+            let h = sb.gate(0) ^ rng.below(2) as usize;
+            sb.c(size, h, 0, 6, 1);
+        }
+        "dups" => {
+            sb = SpecBuilder::new(2 + small_n(rng), rng.below(2) as usize);
+            let b = sb.base();
+            match rng.below(4) {
+                0 => {
+                    sb.c(size, 4, 0, 3, 0);
+                    shape = "dups-same".into();
+                }
+                1 => {
+                    sb.c(size, 2 * b, 2, 2 * b, 2);
+                    shape = "dups-idem".into();
+                    sb.depth = size;
+                }
+                2 => {
+                    sb.c(size, 2 * b, 2, 2 * b + 1, 2);
+                    shape = "dups-contra".into();
+                    sb.depth = size;
+                }
+                _ => {
+                    // the same few pairs over and over, alternately swapped
+                    let w = rng.range(2, 4) as usize;
+                    let reps = size / (2 * w * w) + 1;
+                    for _ in 0..reps.min(40) {
+                        sb.p(2, w, 2, w);
+                    }
+                    sb.c(size.saturating_sub(reps.min(40) * w * w), 5, 0, 2, 0);
+                    shape = "dups-window".into();
+                }
+            }
+            if sb.depth > 1 && !small {
+                ord = "f".into(); // keeps the recursion of the analysis in the oracle irrelevant; DFS depth is the `depth` dimension
+            }
+        }
+        _ => {
+            sb = SpecBuilder::new(small_n(rng) + 2, rng.below(3) as usize);
+            sb.g(200 + rng.below(300) as usize, rng.next() >> 20, 0);
+            ln = format!("g{}.{}", sb.nl, rng.next() >> 20);
+        }
+    }
+    probe_block(rng, &mut sb, small);
+
+    // one ill-formed variant at scale now and then (the `depth-cycle` shape is one already)
+    let mut defect = "none";
+    if idx >= DIMS.len() && shape != "depth-cycle" && rng.chance(1, 6) {
+        match rng.below(3) {
+            0 => {
+                defect = "undef";
+                let v = sb.sig() + 2 + rng.below(3) as usize;
+                let other = pick_code(rng, sb.top() as u64) as usize;
+                sb.x(2 * v + rng.below(2) as usize, other);
+            }
+            1 => {
+                defect = "cycle";
+                let g = sb.cur;
+                sb.x(sb.gate(g + 1) ^ rng.below(2) as usize, 2);
+                sb.x(sb.gate(g) ^ rng.below(2) as usize, 3);
+            }
+            _ => {
+                defect = "dup";
+                let v = match rng.below(4) {
+                    0 => 1,
+                    1 => sb.sig(),
+                    2 => sb.base().max(1),
+                    _ => rng.range(1, sb.sig() as u64) as usize,
+                };
+                sb.o(2 * v + rng.below(2) as usize, 2, 4);
+            }
+        }
+    }
+
+    let total = sb.sig();
+    let all_gates = format!("c{}.{}.2", sb.cur, sb.gate(0));
+    if dim == "roots" {
+        // `size` root literals spread over the sections
+        let part = |rng: &mut Rng, n: usize| match rng.below(3) {
+            0 => format!("g{}.{}", n, rng.next() >> 20),
+            1 => format!("c{}.{}.{}", n, rng.below(4), 0),
+            _ => format!("c{}.2.1+c{}.{}.-1", n.min(2 * total), n - n.min(2 * total), 2 * total + 1),
+        };
+        match rng.below(4) {
+            0 => outputs = part(rng, size),
+            1 => bad = part(rng, size),
+            2 => {
+                constraints = part(rng, size / 2);
+                fairness = part(rng, size - size / 2);
+            }
+            _ => justice = format!("{};e;{};7", part(rng, size / 2), part(rng, size - size / 2)),
+        }
+        outputs = if outputs == "-" { all_gates.clone() } else { format!("{}+{}", outputs, all_gates) };
+    } else if cfg.0 && dim != "depth" {
+        outputs = all_gates.clone();
+    } else if dim == "depth" && cfg.0 && rng.chance(1, 2) {
+        outputs = format!("{}+{}", outputs, all_gates);
+    } else {
+        let extra = format!("g{}.{}", rng.below(6), rng.next() >> 20);
+        outputs = if outputs == "-" { extra } else { format!("{}+{}", outputs, extra) };
+        if rng.chance(1, 3) {
+            bad = format!("g{}.{}", 1 + rng.below(4), rng.next() >> 20);
+        }
+        if rng.chance(1, 3) {
+            justice = format!("g{}.{};e", 1 + rng.below(3), rng.next() >> 20);
+        }
+    }
+    if outputs.starts_with("g0.") {
+        outputs = "-".into();
+    }
+
+    // the model keeps every DFS path alive: deep recursion only when the depth is small
+    let deep_walk = if ord == "f" && !cfg.0 { 1 } else { sb.depth };
+    let model_ms = est_model_ms(sb.base(), sb.cur, deep_walk);
+    let big = !small || model_ms > 2 * model_case_ms;
+    if !big {
+        SCALE_MODEL_MS.fetch_add(model_ms, Ordering::Relaxed);
+    }
+    SCALE_IMPL_MS.fetch_add(est_impl_ms(total), Ordering::Relaxed);
+    format!(
+        "renumber cfg={}{}{} ni={} nl={} ord={} num={} pol={} gs={} ln={} outputs={} bad={} constraints={} justice={} fairness={} shape={} size={} defect={}{}",
+        cfg.0 as u8,
+        cfg.1 as u8,
+        cfg.2 as u8,
+        sb.ni,
+        sb.nl,
+        ord,
+        num,
+        pol,
+        sb.gs(),
+        ln,
+        outputs,
+        bad,
+        constraints,
+        justice,
+        fairness,
+        shape,
+        size,
+        defect,
+        if big { " big=1" } else { "" }
+    )
 }
